@@ -20,7 +20,7 @@ RULE = ("seeded tensors over shapes {0-d, empty, 1-d, 2-d, 3-d} x dtypes {bool, 
         "(bytes, dtype, shape, flags, gradient bytes, creator/base identity, consumer count, writeability) is identical before and after save. "
         "Non-trivial: the tensor carries a gradient; distinct = (shape, dtype, constant, gradient state, graph state, carrier).")
 ASSUMPTIONS = ["paths are given with the .npz suffix (NumPy appends it otherwise; documented)", "the constant flag is not part of the statement"]
-TIERS = {"quick": {"cases": 4000}, "thorough": {"cases": 200000}}
+TIERS = {"quick": {"cases": 8000}, "thorough": {"cases": 200000}}
 FLOORS = {"quick": {"roundtrips": 3800, "with_grad": 800, "save_snapshots": 3800},
           "thorough": {"roundtrips": 19000, "with_grad": 4000, "save_snapshots": 19000}}
 SHAPES = [(), (0,), (3,), (2, 3), (1, 2, 2), (2, 0)]
